@@ -426,6 +426,147 @@ CTOR_NAMES = ("TypedCroppedImage::<'a, V>::new", "TypedCroppedImage::<'a, V>::fr
               "TypedCroppedImageMut::<'a, V>::new", "TypedCroppedImageMut::<'a, V>::from_ref")
 
 
+def _atoms_of(e, acc):
+    """values the caller / the environment controls: parameters, getters on them, results of
+    calls that are not integer arithmetic"""
+    if not isinstance(e, tuple) or not e:
+        return
+    k = e[0]
+    if k in ("param", "local"):
+        acc.add(e)
+        return
+    if k in ("call", "callat"):
+        nm = e[1] if k == "call" else e[2]
+        if nm in ("max", "min", "saturating_sub", "saturating_mul", "div_ceil", "get", "from", "into"):
+            for a in (e[2] if k == "call" else e[3]):
+                _atoms_of(a, acc)
+            return
+        acc.add(e)
+        return
+    for x_ in e:
+        if isinstance(x_, tuple):
+            _atoms_of(x_, acc)
+
+
+class _UnknownNode(Exception):
+    pass
+
+
+def _eval_atoms(e, asg):
+    """value under the assignment; None = this assignment makes the expression meaningless
+    (division by zero, a wrapping product); _UnknownNode = a construct that is not understood"""
+    if not isinstance(e, tuple) or not e:
+        raise _UnknownNode()
+    if e in asg:
+        return asg[e]
+    k = e[0]
+    if k == "const":
+        if isinstance(e[1], (int, bool)) and not isinstance(e[1], float):
+            return e[1]
+        raise _UnknownNode()
+    if k in ("ovf", "exact", "copy", "deref", "ref"):
+        return _eval_atoms(e[1], asg)
+    if k == "cast":
+        v = _eval_atoms(e[2], asg)
+        if v is None:
+            return None
+        ty = str(e[3]) if len(e) > 3 else ""
+        bits = {"u8": 8, "u16": 16, "u32": 32, "u64": 64, "usize": 64}.get(ty)
+        return v % (1 << bits) if bits and isinstance(v, int) and not isinstance(v, bool) else v
+    if k == "field" and str(e[2]) == "0":
+        return _eval_atoms(e[1], asg)
+    if k == "bin":
+        a, b = _eval_atoms(e[2], asg), _eval_atoms(e[3], asg)
+        if a is None or b is None:
+            return None
+        op = e[1].replace("WithOverflow", "").replace("Unchecked", "")
+        try:
+            r = {"Add": lambda: a + b, "Sub": lambda: a - b if a >= b else None, "Mul": lambda: a * b,
+                 "Div": lambda: a // b if b else None, "Rem": lambda: a % b if b else None,
+                 "Shl": lambda: a << b if 0 <= b < 64 else None, "Shr": lambda: a >> b if 0 <= b < 64 else None,
+                 "Lt": lambda: a < b, "Le": lambda: a <= b, "Gt": lambda: a > b, "Ge": lambda: a >= b,
+                 "Eq": lambda: a == b, "Ne": lambda: a != b}
+            if op not in r:
+                raise _UnknownNode()
+            r = r[op]()
+        except _UnknownNode:
+            raise
+        except Exception:
+            return None
+        if isinstance(r, int) and not isinstance(r, bool) and r >= 1 << 64:
+            return None        # would wrap: not a witness we want to argue with
+        return r
+    if k in ("call", "callat"):
+        nm = e[1] if k == "call" else e[2]
+        args = e[2] if k == "call" else e[3]
+        vals = [_eval_atoms(a, asg) for a in args]
+        if any(v is None for v in vals):
+            return None
+        if nm == "max" and len(vals) == 2:
+            return max(vals)
+        if nm == "min" and len(vals) == 2:
+            return min(vals)
+        if nm in ("get", "from", "into") and len(vals) == 1:
+            return vals[0]
+        if nm == "saturating_sub" and len(vals) == 2:
+            return max(0, vals[0] - vals[1])
+        if nm == "div_ceil" and len(vals) == 2:
+            return -(-vals[0] // vals[1]) if vals[1] else None
+    raise _UnknownNode()
+
+
+def _zero_witness(x, facts):
+    """an assignment of the free values (parameters, getters, opaque call results: unsigned) under
+    which every fact holds and x == 0; all facts must be evaluable -- otherwise no claim (None)"""
+    import itertools
+    atoms = set()
+    _atoms_of(strip_all(x), atoms)
+    for fc, fv in facts:
+        _atoms_of(fc, atoms)
+    atoms = sorted(atoms, key=repr)
+    if not atoms or len(atoms) > 4:
+        return None
+    grid = [0, 1, 2, 3, 5, 7, 8, 9, 16, 255, 256, 1000, 3000, 9000, 16384, 65536, 1 << 20]
+    try:
+        for vals in itertools.product(grid, repeat=len(atoms)):
+            asg = dict(zip(atoms, vals))
+            xv = _eval_atoms(strip_all(x), asg)
+            if xv is None or xv != 0:
+                continue
+            ok = True
+            for fc, fv in facts:
+                if not isinstance(fv, bool):
+                    raise _UnknownNode()
+                r = _eval_atoms(fc, asg)
+                if r is None or bool(r) != bool(fv):
+                    ok = False
+                    break
+            if ok:
+                return ", ".join("%s = %d" % (fmt(a)[:40], v) for a, v in asg.items())
+    except _UnknownNode:
+        return None
+    return None
+
+
+def _min_operands(e):
+    """operands of a (nested) `min`: a.min(b).min(c) -> [a, b, c]"""
+    e = strip_all(e)
+    if isinstance(e, tuple) and e and e[0] in ("call", "callat"):
+        nm = e[1] if e[0] == "call" else e[2]
+        args = e[2] if e[0] == "call" else e[3]
+        if nm == "min" and len(args) == 2:
+            return _min_operands(args[0]) + _min_operands(args[1])
+    return [e]
+
+
+def _mentions(cond, sub):
+    if cond == sub:
+        return True
+    if isinstance(cond, tuple):
+        return any(_mentions(x, sub) for x in cond if isinstance(x, tuple))
+    return False
+
+
 def unwraps(rep, prog, rule, only=None, floor=20):
     rep.rule(rule, "every unwrap/expect of the geometry layer: the receiver's failure condition "
              "is refuted by guards/intervals (DISCHARGED), is satisfiable for caller-controlled "
@@ -483,7 +624,36 @@ def unwraps(rep, prog, rule, only=None, floor=20):
                 if iv is not None and iv[0] >= 1:
                     rep.ok(rule, key, c.at, "argument in %s" % (list(iv),))
                 else:
-                    rep.unk(rule, key, c.at, "NonZero::new(%s): lower bound not shown" % fmt(x)[:80])
+                    # a minimum is positive when each operand is: where the author guarded some
+                    # operands (`a > 1 && b > 1`) and the minimum has one more operand that no
+                    # guard speaks about and that is a quotient / difference reaching 0 for small
+                    # values, the unwrap's argument for safety no longer covers the expression
+                    ops = _min_operands(strip_all(x))
+                    loose = []
+                    guarded = 0
+                    for o in ops:
+                        oiv = _eval_with_facts(ctx, o, nf)
+                        if oiv is not None and oiv[0] >= 1:
+                            guarded += 1
+                            continue
+                        so = strip_all(o)
+                        if so[0] == "bin" and so[1] in ("Div", "Sub", "Shr", "Rem") and \
+                                not any(_mentions(fc, so) or _mentions(fc, strip_all(so[2])) for fc, fv in facts):
+                            loose.append(o)
+                    wit = _zero_witness(x, facts)
+                    if wit is not None:
+                        rep.bad(rule, key + "|zero-reachable", c.at,
+                                "NonZero::new(%s).unwrap() panics: the argument is 0 and every condition "
+                                "before the call holds for %s" % (fmt(x)[:90], wit))
+                    elif len(ops) >= 2 and guarded >= 1 and loose and guarded + len(loose) == len(ops):
+                        rep.bad(rule, key + "|unguarded-operand", c.at,
+                                "NonZero::new(min(..)).unwrap(): %d operand(s) of the minimum are guarded "
+                                "positive, but %s is not -- no condition before the call mentions it and it "
+                                "is 0 for small values: the unwrap panics there (e.g. a band count capped "
+                                "by `height / 8` for an image of fewer than 8 rows)" % (
+                                    guarded, fmt(loose[0])[:60]))
+                    else:
+                        rep.unk(rule, key, c.at, "NonZero::new(%s): lower bound not shown" % fmt(x)[:80])
                 continue
             if nm == "divide_alpha_inplace_typed":
                 sup = any(cc[0] == "call" and cc[1] == "is_supported" and v is True
